@@ -231,13 +231,26 @@ def _ctor_validates_tensor_args(prog: Program) -> bool | None:
 
 
 def _classmethod_falls_back(prog: Program, name: str) -> bool:
-    """TensorCollection.<name> catches IncompatibleShapeError around cls(...) and falls back to the element class."""
+    """TensorCollection.<name> (or a helper it calls) catches IncompatibleShapeError around cls(...) and falls back to the element class."""
     f = prog.lookup(prog.cls("TensorCollection"), name)
     if f is None:
         return False
-    for st in walk_no_nested(f.node):
-        if isinstance(st, ast.Try) and any(h.type is not None and "IncompatibleShapeError" in ast.unparse(h.type) for h in st.handlers):
-            return True
+    todo, seen = [f], set()
+    while todo:
+        g = todo.pop()
+        if g.qualname in seen:
+            continue
+        seen.add(g.qualname)
+        for st in walk_no_nested(g.node):
+            if isinstance(st, ast.Try) and any(h.type is not None and "IncompatibleShapeError" in ast.unparse(h.type) for h in st.handlers):
+                return True
+            if isinstance(st, ast.With) and any("suppress" in ast.unparse(i.context_expr) and "IncompatibleShapeError" in ast.unparse(i.context_expr) for i in st.items):
+                return True
+            if isinstance(st, ast.Call) and isinstance(st.func, ast.Attribute) and isinstance(st.func.value, ast.Name) and st.func.value.id in ("cls", "self") \
+                    and g.cls is not None and len(seen) < 6:
+                h = prog.lookup(g.cls, st.func.attr)
+                if h is not None:
+                    todo.append(h)
     return False
 
 
@@ -283,6 +296,8 @@ def rule_K2e(run: Run, prog: Program) -> int:
             elif how == "from_array":
                 if fb_array and (validates or not arg_is_tensor):
                     verdicts.append((PROVEN, f"{k.name}.from_array falls back to {elem.name} through constructor validation"))
+                elif validates:
+                    verdicts.append((UNDECIDED, f"{k.name}.from_array: no fall-back to the element class recognised"))
                 else:
                     verdicts.append((VIOLATION,
                                      f"{f.short} re-wraps with {k.name}.from_array(<tensor>): the fall-back to {elem.name} needs the "
@@ -291,6 +306,8 @@ def rule_K2e(run: Run, prog: Program) -> int:
             else:
                 if elem_bound or (fb_tensor and validates):
                     verdicts.append((PROVEN, f"{k.name}.from_tensor selects {elem.name} for a single element"))
+                elif validates:
+                    verdicts.append((UNDECIDED, f"{k.name}.from_tensor: no fall-back to the element class recognised"))
                 else:
                     verdicts.append((VIOLATION,
                                      f"{f.short} re-wraps with {k.name}.from_tensor(<tensor>): a single {elem.name} still has free (vertex) "
